@@ -108,6 +108,8 @@ prop("C02", [
 prop("C03", [
     dict(engine="verus", unit="dnsreply", fns=["DnsListenerHandler::create_in_reply"]),
     dict(engine="verus", unit="dnsser", fns=["push_rr", "push_u16", "push_u32", "push_label", "push_str"]),
+    # the upstream reply as decoded: header bits, and the response code's upper bits from the first version-0 OPT record
+    dict(engine="verus", unit="dnsparse", fns=["PktParser::get_dns"]),
 ], explanation="create_in_reply: the client reply is the upstream reply under the client's id and question, for any number of records; "
                "push_rr: every name is written with the base offset of the buffer it is written into (emission-point precondition of the compression dictionary)")
 
